@@ -215,6 +215,35 @@ def check(prog, run):
             else:
                 run.ok("static-mask-terminates", c)
     run.count("decoder_functions", nfunc)
+    # whatever sequence of byte values the buffer is held in (a list, a tuple: what a caller doing its own ioctl, array or
+    # ctypes plumbing ends up with), decoding it ends: conformant sample responses of fixed length, selector bytes fixed, the
+    # rest arbitrary
+    from spec import responses as refr
+    nforms = 0
+    for case in refr.MINIMAL:
+        modname, clsname = case["cls"].split(":")
+        cls = prog.cls(modname, clsname)
+        f = prog.func(modname, clsname, "unmarshall_datain")
+        for form in ("list", "tuple"):
+            nforms += 1
+
+            def thl(case=case, cls=cls, form=form):
+                cells = [case["fixed"].get(i, mem_byte("resp", (None, i))) for i in range(case["length"])]
+                fn = I.get_attr(cls, "unmarshall_datain", None, _F())
+                return I.call(fn, [cells if form == "list" else tuple(cells)], dict(case["kwargs"]), None, _F())
+            c = "%s.unmarshall_datain on %s given as a %s" % (clsname, case["note"], form)
+            try:
+                I.explore(thl, max_paths=400)
+                run.ok("terminates-for-any-sequence-type", c, nontrivial=False)
+            except AnalysisError as e:
+                if e.reason == "path-limit":
+                    continue
+                if e.reason != "static-loop-does-not-terminate":
+                    raise
+                run.violation("terminates-for-any-sequence-type", c,
+                              "decoding the %d byte values held in a %s never ends (%s): a loop test that only a bytes-like object can "
+                              "make false" % (case["length"], form, e.detail), prog.rel(f.module), f.node.lineno, f.qualname)
+    run.count("sequence_type_cases", nforms)
     run.count("data_dependent_loops", nloops)
     run.count("table_entries", nent)
     run.floor("decoder functions", nfunc, 23)
